@@ -798,6 +798,8 @@ def run(tier):
     rep.rule("C01.obj", "a position parameter is offset into / subtracted from the size of the same object it was validated against (clamps like min(count, X.size() - pos) "
                         "must use the X whose characters are read), otherwise substrings of the wrong length are compared/copied")
     rep.rule("C01.pub", "the length a mutator publishes is exactly the value the capacity check saw (result length, not an intermediate sum), so operations whose result fits are not rejected")
+    rep.rule("C01.reads", "a traits compare/find of the search and compare family over the string's own buffer covers a range that provably ends at or before data()+size(): "
+                          "bytes behind the terminator never take part in a search or comparison result")
     rep.rule("C01.deleg", "every pure forwarding overload of the search/compare/replace/insert/append/assign/erase families calls the worker of its own name, forwards every "
                           "parameter, and passes a string's characters together with the size of that same string")
     rep.rule("C01.window", "in search loops stepping a cursor and a remaining count together, cursor + remaining is invariant")
@@ -817,9 +819,10 @@ def run(tier):
         rule_bound(rep, S)
         rule_window(rep, S)
         rule_deleg(rep, S)
-        from .c02 import rule_pos, rule_pub
+        from .c02 import rule_pos, rule_pub, rule_extent
         rule_pos(rep, S, "C01.obj")
         rule_pub(rep, S, "C01.pub")
+        rule_extent(rep, S, 16, "read", "C01.reads")
     rule_defarg(rep, d)
     rule_selflen(rep, d, strs["P16"])
     rule_order(rep, d, strs["P16"])
